@@ -133,8 +133,9 @@ REGISTRY = {
         "level_note": "trusted: strace -f decoding (lib/stracelog.py); atime is not compared",
         "technique": "runtime monitoring: snapshot invariant + syscall-log audit + differential prediction oracle",
         "parts": [K.cli_c10],
-        "rule": "C05-style workspaces incl. failing series x threads 1/4 x backup modes x -q/default/-v x prior applied state x goal. Non-trivial: the corresponding real run changes the working directory.",
-        "floor": floors(("real-run-writes-something", 200), ("dry-runs:exit=1", 100), ("dry-runs:exit=0", 100), ("syscalls-audited", 10000), ("dry-runs-under-a-forced-flag-order", 20)),
+        "rule": "C05-style workspaces incl. failing series x threads 1/4 x backup modes x -q/default/-v x prior applied state x goal (-a / number / name); 35% combine --dry-run with 1-3 of -F n, -A multiapply, --mmap, --stats, --color always, --backup-count. "
+                "Non-trivial: the corresponding real run changes the working directory.",
+        "floor": floors(("real-run-writes-something", 200), ("dry-runs:exit=1", 100), ("dry-runs:exit=0", 100), ("syscalls-audited", 10000), ("dry-runs-under-a-forced-flag-order", 20), ("dry-runs-with-other-options", 300)),
     },
     "C11": {
         "level_text": 'parser and follow-up application run on bounded-exhaustive line sequences, numeric extremes, mutants; panics caught, allocations counted, aborts/hangs attributed per case',
